@@ -47,6 +47,7 @@ type c30Batch struct {
 	SMeta    []c30KV      `json:"smeta,omitempty"`    // schema-level metadata
 	Meta     []c30KV      `json:"meta,omitempty"`     // the batch's own custom metadata
 	WithMeta bool         `json:"withmeta,omitempty"` // wrap as RecordBatchWithMetadata even if Meta is empty
+	XCol     bool         `json:"xcol,omitempty"`     // the single column is named x (the scripted methods' parameter)
 }
 
 type c30Wire struct {
@@ -88,6 +89,9 @@ type c30In struct {
 	Sched  []c30ConcEv `json:"sched,omitempty"`
 	Free   bool        `json:"free,omitempty"`   // free-running goroutines, storage copies late
 	Procs1 bool        `json:"procs1,omitempty"` // run under GOMAXPROCS(1)
+	// route: the pointer request goes end to end through an entry point (see c30_route.go)
+	Route    string `json:"route,omitempty"`    // http_unary | http_init | http_exchange | pipe_exchange
+	LogLevel string `json:"loglevel,omitempty"` // vgi_rpc.log_level on the request / input batch
 }
 
 // ---- origins ----------------------------------------------------------------
@@ -162,6 +166,9 @@ func c30Schema(b c30Batch) *arrow.Schema {
 	fs := make([]arrow.Field, b.Cols)
 	for i := range fs {
 		fs[i] = arrow.Field{Name: fmt.Sprintf("c%d", i), Type: arrow.PrimitiveTypes.Int64}
+		if b.XCol && b.Cols == 1 {
+			fs[i].Name = "x"
+		}
 	}
 	if len(b.SMeta) == 0 {
 		return arrow.NewSchema(fs, nil)
@@ -309,7 +316,7 @@ func c30Encode(bs []c30Batch) ([]byte, []arrow.RecordBatch) {
 	w := ipc.NewWriter(&buf, ipc.WithSchema(sch))
 	var recs []arrow.RecordBatch
 	for _, b := range bs {
-		b.Cols, b.SMeta = bs[0].Cols, bs[0].SMeta // one schema per stream
+		b.Cols, b.SMeta, b.XCol = bs[0].Cols, bs[0].SMeta, bs[0].XCol // one schema per stream
 		rec := c30Build(b)
 		if err := w.Write(rec); err != nil {
 			panic("c30: ipc write: " + err.Error())
@@ -637,6 +644,9 @@ func c30Run(in c30In) CaseOut {
 	obs := map[string]any{}
 	if in.Mode == "conc" {
 		return c30RunConc(in, mat)
+	}
+	if in.Mode == "route" {
+		return c30RunRoute(in, mat)
 	}
 
 	if in.Mode == "res" {
@@ -1197,6 +1207,7 @@ func c30Gen(r *rand.Rand, n int, tier string) []c30In {
 			out = append(out, c)
 		}
 	}
+	out = append(out, c30RouteBoundary(r)...)
 	out = append(out, c30ConcBoundary(r)...)
 	if tier == "thorough" {
 		n0 := c30RowsFor(1 << 20)
@@ -1210,6 +1221,10 @@ func c30Gen(r *rand.Rand, n int, tier string) []c30In {
 	for len(out) < n {
 		if r.Intn(8) == 0 {
 			out = append(out, c30ConcRandom(r))
+			continue
+		}
+		if r.Intn(5) == 0 {
+			out = append(out, c30RouteRandom(r))
 			continue
 		}
 		switch r.Intn(5) {
